@@ -488,7 +488,8 @@ static void part_b(const char *path)
     int32 vsref = VSgetid(fid, -1), vgref = Vgetid(fid, -1);
     int32 vs_r = vsref > 0 ? (int32)CALL("VSattach", 0, VSattach(fid, vsref, "r")) : FAIL;
     int32 vg_r = vgref > 0 ? (int32)CALL("Vattach", 0, Vattach(fid, vgref, "r")) : FAIL;
-    int32 ri = gr != FAIL ? (int32)CALL("GRselect", 0, GRselect(gr, 0)) : FAIL;
+    int32 nimg_b = 0, ngat_b = 0; if (gr != FAIL) GRfileinfo(gr, &nimg_b, &ngat_b);
+    int32 ri = (gr != FAIL && nimg_b > 0) ? (int32)CALL("GRselect", 0, GRselect(gr, (int32)hk_range(0, nimg_b - 1))) : FAIL;   /* any image: GR-written, old-style compressed, ... */
     int32 nsds = 0, nat = 0; if (sd != FAIL) SDfileinfo(sd, &nsds, &nat);
     int32 sds = (sd != FAIL && nsds > 0) ? (int32)CALL("SDselect", 0, SDselect(sd, (int32)hk_range(0, nsds - 1))) : FAIL;
     int32 ann = an != FAIL ? (int32)CALL("ANselect", 0, ANselect(an, 0, AN_DATA_LABEL)) : FAIL;
@@ -579,7 +580,7 @@ static void part_b(const char *path)
             case 60: { comp_info ci; memset(&ci, 0, sizeof ci); ci.deflate.level = 1; CALL("GRsetcompress", 1, GRsetcompress(hk_chance(50) ? ri : newri, COMP_CODE_DEFLATE, &ci)); } break;
             case 61: { HDF_CHUNK_DEF c; memset(&c, 0, sizeof c); c.chunk_lengths[0] = 2; c.chunk_lengths[1] = 2; CALL("GRsetchunk", 1, GRsetchunk(hk_chance(50) ? ri : newri, c, HDF_CHUNK)); } break;
             case 62: { int32 one[2] = {1, 1}; CALL("GRreadimage", 0, GRreadimage(ri, st2, NULL, one, buf)); } break;
-            case 63: { if (ri != FAIL) CALL("GRendaccess", 0, GRendaccess(ri)); ri = gr != FAIL ? (int32)CALL("GRselect", 0, GRselect(gr, 0)) : FAIL; } break;
+            case 63: { if (ri != FAIL) CALL("GRendaccess", 0, GRendaccess(ri)); ri = (gr != FAIL && nimg_b > 0) ? (int32)CALL("GRselect", 0, GRselect(gr, (int32)hk_range(0, nimg_b - 1))) : FAIL; } break;
             /* ---- AN */
             case 64: { int32 a = (int32)CALL("ANcreate", 1, ANcreate(an, 1000, 1, hk_chance(50) ? AN_DATA_LABEL : AN_DATA_DESC)); if (a != FAIL) newann = a; } break;
             case 65: { int32 a = (int32)CALL("ANcreatef", 1, ANcreatef(an, hk_chance(50) ? AN_FILE_LABEL : AN_FILE_DESC)); if (a != FAIL) newann = a; } break;
